@@ -258,7 +258,9 @@ C08Name(n) ==
 C08Sale == \A n \in DOMAIN sale' :
              (n \notin DOMAIN sale \/ sale'[n] # sale[n]) =>
                 LET l == last' IN l.a = "list" /\ l.ok /\ l.n = n /\ sale'[n].lister = l.s /\ sale'[n].price = l.p
-C08Step == (\A n \in DOMAIN names : C08Name(n)) /\ C08Sale
+\* consent can be withdrawn: after a successful Delist the listing is gone (whatever the spelling of the name in the message)
+C08Delist == LET l == last' IN (l.a = "delist" /\ l.ok) => l.n \notin DOMAIN sale'
+C08Step == (\A n \in DOMAIN names : C08Name(n)) /\ C08Sale /\ C08Delist
 
 \* C16 (step)
 C16Step ==
